@@ -181,7 +181,8 @@ func (*Stream).safeSendToDataChan
 func (*Stream).expandDataChannel
   props C19
   option channel_events
-  modifies s.expanding, s.dataChan, ghost(sends), ghost(recvs), ghost(timeouts_migrationTimeout)
+  modifies s.expanding, s.dataChan, ghost(sends), ghost(recvs), ghost(timeouts_migrationTimeout), ghost(drained)
+  before Unlock old-buffer-observed-empty-before-the-swap: wheld(s.dataChanMux) ==> ghost(drained) == 1 || ghost(timeouts_migrationTimeout) > old(ghost(timeouts_migrationTimeout))
   ensures migration-moves-every-row-it-takes: ghost(timeouts_migrationTimeout) == old(ghost(timeouts_migrationTimeout)) ==> ghost(sends) - old(ghost(sends)) == ghost(recvs) - old(ghost(recvs))
   before Unlock swapped-only-to-a-larger-buffer-within-the-ceiling: wheld(s.dataChanMux) ==> s.dataChan == newChan && newCap > oldCap && (buf.MaxBufferSize > 0 ==> newCap <= buf.MaxBufferSize)
   loop 1 invariant held(s.dataChanMux) && wheld(s.dataChanMux) && held(s.expansionMux) && s.expanding == 1
@@ -191,7 +192,7 @@ func (*Stream).expandDataChannel
 func (*ExpansionStrategy).ProcessData
   props C19
   option channel_events
-  modifies es.stream.expanding, es.stream.dataChan, es.stream.mInputDropped.val, ghost(sends), ghost(recvs), ghost(dones), ghost(timeouts_migrationTimeout), ghost(timeouts_timer)
+  modifies es.stream.expanding, es.stream.dataChan, es.stream.mInputDropped.val, ghost(sends), ghost(recvs), ghost(dones), ghost(timeouts_migrationTimeout), ghost(timeouts_timer), ghost(drained)
   ensures enqueued-once-or-counted-as-dropped-or-stopping: ghost(timeouts_migrationTimeout) == old(ghost(timeouts_migrationTimeout)) ==> ((ghost(sends) - ghost(recvs)) - (old(ghost(sends)) - old(ghost(recvs))) + (es.stream.mInputDropped.val - old(es.stream.mInputDropped.val)) == 1 || (old(es.stream.stopped) == 1 || ghost(dones) > old(ghost(dones))) && (ghost(sends) - ghost(recvs)) == (old(ghost(sends)) - old(ghost(recvs))) && es.stream.mInputDropped.val == old(es.stream.mInputDropped.val))
   ensures never-both: es.stream.mInputDropped.val - old(es.stream.mInputDropped.val) <= 1 && es.stream.mInputDropped.val >= old(es.stream.mInputDropped.val)
   loop 1 invariant ghost(timeouts_migrationTimeout) == old(ghost(timeouts_migrationTimeout)) ==> (ghost(sends) - ghost(recvs)) == (old(ghost(sends)) - old(ghost(recvs)))
